@@ -76,3 +76,17 @@ Example ex_purge :
   serve_msg_exact bytes bytes_eqb hid s4 q false (Some (mk_scope true 24 [10;1;2;0])) = None /\
   option_map e_id (serve_msg_exact bytes bytes_eqb hid s4 qb false None) = Some 4.
 Proof. vm_compute. repeat split; reflexivity. Qed.
+
+(* the self-alias test: "a. CNAME A." asked as "A." is a loop (SERVFAIL); "a. CNAME t." with "t. A" stored is a
+   chain of one hop that is served, and that hop's name is not the question's *)
+Example ex_msg_chase_selfloop :
+  let hid (p : bytes) := p in
+  let qa := mk_q [97;46] 1 1 in
+  let qt := mk_q [116;46] 1 1 in
+  let loop := mk_entry qa false None 1 (Some [1;65;0]) false true in
+  let chain := mk_entry qa false None 2 (Some [1;84;0]) false true in
+  let s := set_from_response bytes bytes_eqb (cachekey_pre qt false None) qt false None 3 None true true (empty_store bytes) in
+  msg_chase_selfloop bytes bytes_eqb hid s 10 [65;46] 1 1 false loop = true /\
+  msg_chase_selfloop bytes bytes_eqb hid s 10 [65;46] 1 1 false chain = false /\
+  map e_id (msg_chase bytes bytes_eqb hid s 10 1 1 false chain) = [3].
+Proof. vm_compute. repeat split; reflexivity. Qed.
